@@ -211,6 +211,9 @@ class Facts:
                 return env
             ca = self.cmp_atom(e)
             if ca is None:
+                a = self.atom_of(e)  # any other comparison (`<`, `>=`, ...) tracked verbatim as one atom
+                if a is not None:
+                    env[a] = 'T' if truth else 'F'
                 return env
             want = truth != ca[1]
             v = env.get(ca[0])
